@@ -164,6 +164,8 @@ def gen_ops_cases(rng, count, weakly, max_atoms=5, max_conds=7, nq=6, prefix="g"
             base, linked = gen_base_linked(rng, n)
         elif r < 0.24 and n >= 4:
             base = gen_base_layered(rng, n, m)
+        elif 0.45 <= r < 0.53 and n >= 3:
+            base = gen_base_defaults(rng, n)
         elif r < 0.45 and n >= 2:
             base = gen_base_hierarchy(rng, n, m)
         elif r < 0.8:
@@ -393,7 +395,7 @@ def tie_queries(rng, case, part, count=3):
     byk = {k: (b, a) for (k, b, a) in case["base"]}
     fin = [l for l in (part[:-1] if case["weakly"] else part)]
     if len(fin) < 2:
-        return world_queries(rng, case, part, 2)
+        return world_queries(rng, case, part, 2) + mixed_size_queries(rng, case, part, 2)
     out = []
 
     def falf(k):
@@ -423,6 +425,79 @@ def tie_queries(rng, case, part, count=3):
         A = And(falf(up), Or(X, Y)) if rng.random() < 0.7 else And(byk[up][1], Or(X, Y))
         out.append((X if rng.random() < 0.7 else Not(Y), A))
     return out + world_queries(rng, case, part, count + 3)
+
+
+def gen_base_defaults(rng, n):
+    """Independent defaults in one layer: (x_i|Top) / (x_i|a) over distinct atoms, optionally with exceptions below a
+    second layer.  Layers in which several conditionals can be falsified independently have inclusion-minimal
+    falsification sets of different cardinalities and overlapping sets of least cardinality."""
+    k = min(n, rng.randrange(3, 6))
+    shared = V(n - 1) if (n > k and rng.random() < 0.5) else T
+    base = []
+    for i in range(k):
+        x = V(i) if rng.random() < 0.8 else Not(V(i))
+        base.append((len(base) + 1, x, shared))
+    if rng.random() < 0.5 and n > k:
+        e = V(k) if shared is T else And(shared, V(k)) if k < n - 1 else None
+        if e is not None:
+            for i in rng.sample(range(k), rng.randrange(1, min(3, k) + 1)):
+                b = base[i][1]
+                base.append((len(base) + 1, Not(b), e))
+    return base
+
+
+def mixed_size_queries(rng, case, part, count=3):
+    """Antecedents that offer falsification sets of one layer which are pairwise incomparable and of DIFFERENT sizes
+    (e.g. {c1} and {c2,c3}), or several sets of the least size that overlap ({c1,c2},{c1,c3},{c2,c3}); the consequent
+    selects some of the worlds.  Decided by enumerations that must return every inclusion-minimal set, not only the
+    smallest ones, and every smallest one, not only pairwise disjoint ones."""
+    import itertools as _it
+    from common import ev
+    n = case["n"]
+    if n > 6 or not case["base"]:
+        return []
+    byk = {k: (b, a) for (k, b, a) in case["base"]}
+    fin = part[:-1] if case["weakly"] else part
+    inf = set(part[-1]) if case["weakly"] else set()
+    big = [l for l in fin if len(l) >= 3]
+    if not big:
+        return []
+    out = []
+    for _ in range(count * 3):
+        if len(out) >= count:
+            break
+        layer = rng.choice(big)
+        bypat = {}
+        for w in _it.product([False, True], repeat=n):
+            fs = frozenset(k for k, (b, a) in byk.items() if ev(a, w) and not ev(b, w))
+            if fs & inf:
+                continue
+            bypat.setdefault(frozenset(fs & set(layer)), []).append(w)
+        pats = [p for p in bypat if p]
+        rng.shuffle(pats)
+        chosen = []
+        want_overlap = rng.random() < 0.4
+        for p in pats:
+            if all(not (p <= q or q <= p) for q in chosen):
+                if want_overlap and chosen and (len(p) != len(chosen[0]) or not any(p & q for q in chosen)):
+                    continue
+                chosen.append(p)
+            if len(chosen) >= rng.randrange(2, 5):
+                break
+        if len(chosen) < 2 or (not want_overlap and len({len(p) for p in chosen}) < 2):
+            continue
+        ws = [rng.choice(bypat[p]) for p in chosen]
+        extra = [rng.choice(bypat[p]) for p in chosen if len(bypat[p]) > 1 and rng.random() < 0.5]
+        allw = list(dict.fromkeys(ws + extra))
+        nb = rng.randrange(1, len(allw))
+        rng.shuffle(allw)
+        def disj(xs):
+            cur = minterm(xs[0])
+            for w in xs[1:]:
+                cur = Or(cur, minterm(w))
+            return cur
+        out.append((disj(allw[:nb]), disj(allw)))
+    return out
 
 
 def minterm(w):
